@@ -373,6 +373,7 @@ func parentC08(p *core.ParentCtx) *core.Result {
 		}
 		outs := p.Spawn(specs, 0)
 		texts := map[string][]string{}
+		rawBase := map[int]string{}
 		for _, oc := range outs {
 			if oc.Res != nil {
 				res.Merge(oc.Res)
@@ -387,6 +388,9 @@ func parentC08(p *core.ParentCtx) *core.Result {
 				continue
 			}
 			texts[oc.Spec.Args["cfg"]] = t
+			if oc.Spec.Args["cfg"] == "alwaysmiss" {
+				rawBase = c08LoadRaw(filepath.Join(oc.WorkDir, "results.jsonl"))
+			}
 		}
 		base, ok := texts["alwaysmiss"]
 		if !ok {
@@ -398,6 +402,50 @@ func parentC08(p *core.ParentCtx) *core.Result {
 		if len(base) != len(h.Calls) {
 			res.Inconc(fmt.Sprintf("baseline has %d results for %d calls", len(base), len(h.Calls)))
 			continue
+		}
+		// "a struct that carries rule sets for several tag names is always judged by the tag name
+		// requested in that call": if every configuration agrees but the history-free result is the
+		// one the reference expects under ANOTHER tag name (and not under the requested one), all
+		// configurations are equally wrong — invisible to the relational comparison above.
+		for pos, call := range h.Calls {
+			if call.Hot < 0 || call.RM != nil || strings.HasPrefix(base[pos], "PANIC") {
+				continue
+			}
+			raw, okRaw := rawBase[call.ID]
+			if !okRaw || strings.HasPrefix(raw, "PANIC") {
+				continue
+			}
+			why := ""
+			agrees := func(tag string) bool {
+				env := &ref.Env{Tag: tag}
+				exps, _ := env.ExpectStruct(h.input(call))
+				if env.Unspec {
+					return tag == call.Tag // undecided: no complaint about the requested tag, no claim about another
+				}
+				if len(exps) == 0 {
+					return raw == "<nil>"
+				}
+				if raw == "<nil>" {
+					return false
+				}
+				d := ref.Diff(exps, toActual(clause.Parse(raw)), false)
+				if tag == call.Tag {
+					why = d.Kind + ": " + d.Detail
+				}
+				return d.Kind == ""
+			}
+			res.Count("calls_checked_against_requested_tag")
+			if agrees(call.Tag) {
+				continue
+			}
+			for _, other := range c08Tags {
+				if other != call.Tag && agrees(other) {
+					res.Violate("C08|judged-by-other-tag|all-configurations", fmt.Sprintf("call #%d %s returned %q even with a cache that never remembers anything: that is what the rules under tag %q demand, not those under the requested tag %q (%s); type %s",
+						call.ID, call.describe(), trunc(base[pos], 400), other, call.Tag, trunc(why, 300), trunc(h.typeOf(call).String(), 500)),
+						map[string]interface{}{"seed": seed, "call": call, "history_free": base[pos], "requested_tag": call.Tag, "matches_tag": other, "type": h.typeOf(call).String(), "value": describeValue(reflect.ValueOf(h.input(call)))})
+					break
+				}
+			}
 		}
 		for _, cfg := range c08Configs {
 			t, ok := texts[cfg]
@@ -460,6 +508,28 @@ func parentC08(p *core.ParentCtx) *core.Result {
 }
 
 func c08Rng(seed int64) *rand.Rand { return rand.New(rand.NewSource(seed*7919 + 17)) }
+
+// c08LoadRaw returns the raw (unsorted) error texts recorded by the always-miss child.
+func c08LoadRaw(path string) map[int]string {
+	out := map[int]string{}
+	f, err := os.Open(path)
+	if err != nil {
+		return out
+	}
+	defer f.Close()
+	sc := bufio.NewScanner(f)
+	sc.Buffer(make([]byte, 1<<20), 1<<24)
+	for sc.Scan() {
+		var r struct {
+			ID  int    `json:"id"`
+			Raw string `json:"r"`
+		}
+		if json.Unmarshal(sc.Bytes(), &r) == nil {
+			out[r.ID] = r.Raw
+		}
+	}
+	return out
+}
 
 func c08Load(path string) ([]string, error) {
 	f, err := os.Open(path)
@@ -573,7 +643,11 @@ func runC08(c *core.Ctx) {
 		prevOnType[ty] = call
 		out := h.exec(call)
 		res.Eval()
-		enc.Encode(map[string]interface{}{"id": call.ID, "t": normText(out)})
+		rec := map[string]interface{}{"id": call.ID, "t": normText(out)}
+		if cfg == "alwaysmiss" {
+			rec["r"] = out.String() // the raw text, clause order intact (for the comparison with the reference)
+		}
+		enc.Encode(rec)
 	}
 	w.Flush()
 	f.Close()
